@@ -168,10 +168,10 @@ example :
 
 /-! ### serials -/
 
-/-- `new_serial` away from the wrap at `maxint`: the counter goes up by exactly one, so serials handed out
-    by one counter are strictly increasing, hence unique.  Full statement (`serial_unique`,
-    `poolserial_increasing` for every history) additionally needs "fewer than `maxint` events"; the
-    wrap itself is `newSerial_wraps` below. -/
+/-- `new_serial` away from the wrap at `maxint`: the counter goes up by exactly one.  This is a fact about one call;
+    the statements over whole histories are `serial_is_draw_index`, `serial_unique`, `serial_increasing`,
+    `poolserial_is_draw_index`, `poolserial_increasing`, `poolserial_unique` below, which account for the wrap
+    (`newSerial_wraps`) exactly -- the hypothesis here is not an omission but the reset `new_serial` performs. -/
 theorem newSerial_increasing_partial (serial : Int) (h : serial ≠ maxint) : newSerial serial = serial + 1 := by
   simp [newSerial, newSerial_g0, newSerial_a0, newSerial_a1, newSerial_a2, h]
 
@@ -190,7 +190,7 @@ theorem newSerial_wraps : newSerial maxint = 0 := by decide
   per-listener invariant `LOK`); `fresh_consistent` shows that every freshly configured daemon satisfies it and
   `consistent_forever` that no operation ever leaves it. -/
 
-/-- the state invariant the three history theorems rest on -/
+/-- the state invariant the history theorems rest on -/
 def Consistent (h : Bytes → Listener.HRes) (w : W) : Prop := J h w 0 (fun _ => 0)
 
 /-- **fresh_consistent**: a freshly configured daemon -- any number of pools with pairwise distinct names (the
@@ -203,14 +203,22 @@ theorem fresh_consistent (h : Bytes → Listener.HRes) (ps : List PoolSt) (hf : 
 theorem consistent_forever (h : Bytes → Listener.HRes) (w0 : W) (ops : List Op) (hc : Consistent h w0) :
     Consistent h (exec h w0 ops) := j_exec h 0 ops w0 hc
 
-/-- the pools of the regression instances below are fresh pools: the hypotheses are satisfiable -/
-example : FreshPools [{ name := "a", bufSize := 3, subs := [.TICK, .TICK_5], procs := [Listener.initial] },
-                      { name := "b", bufSize := 1, subs := [.EVENT], procs := [Listener.initial, Listener.initial] }] := by
+/-- two pools with overlapping subscriptions, one and two listeners -/
+def demoPools : List PoolSt :=
+  [{ name := "a", bufSize := 3, subs := [.TICK, .TICK_5], procs := [Listener.initial] },
+   { name := "b", bufSize := 1, subs := [.EVENT], procs := [Listener.initial, Listener.initial] }]
+
+/-- the hypothesis of `fresh_consistent` is satisfiable -/
+theorem demoPools_fresh : FreshPools demoPools := by
   refine ⟨by decide, ?_⟩
   intro p hp
-  simp only [List.mem_cons, List.not_mem_nil, or_false] at hp
+  simp only [demoPools, List.mem_cons, List.not_mem_nil, or_false] at hp
   rcases hp with rfl | rfl <;> refine ⟨rfl, rfl, ?_⟩ <;> intro l hl <;> simp at hl <;> subst hl <;>
     exact ⟨Listener.lok_initial, rfl⟩
+
+/-- ... and so is `Consistent`, the hypothesis of every history theorem below -/
+example (h : Bytes → Listener.HRes) : Consistent h { pools := assignIds 0 demoPools } :=
+  fresh_consistent h demoPools demoPools_fresh
 
 /-- how many of the events emitted before event `e` carry a serial -/
 def serialsBefore (w : W) (e : Nat) : Nat := cnt (w.events.map (·.serial)) e
@@ -246,7 +254,8 @@ theorem serial_increasing (h : Bytes → Listener.HRes) (w0 : W) (ops : List Op)
     (hs1 : ev1.serial = some s1) (hs2 : ev2.serial = some s2) (hnowrap : (e2 : Int) ≤ maxint) : s1 < s2 :=
   chain_increasing _ _ (consistent_forever h w0 ops hc).sv.g e1 e2 s1 s2 hlt (by simp [sers, h1, hs1]) (by simp [sers, h2, hs2]) hnowrap
 
-/-- the wrap is real: the draw `maxint + 1` calls later returns the same serial again -/
+/-- **serAt_period**: the wrap is real -- the draw `maxint + 1` calls later returns the same serial again, so the
+    window in `serial_unique` cannot be widened -/
 theorem serAt_period (k : Nat) : serAt (k + (maxint + 1).toNat) = serAt k := by
   unfold serAt maxint; omega
 
@@ -258,9 +267,8 @@ example :
 
 /-- **poolserial_is_draw_index** (every history, every pool): the poolserial an event carries for a pool is the
     number of events that pool accepted among those emitted before it (counted like `new_serial` counts), and the
-    pool's counter stands where its last draw left it.  An event is accepted by a pool inside the `notify` that
-    emits it (`j_accept_false`, `j_rebuffer`: every later `_acceptEvent` of the pool finds its name in
-    `pool_serials`), so "emitted before" is "accepted before". -/
+    pool's counter stands where its last draw left it.  By `acceptance_decided_at_emission` "accepted among those
+    emitted before it" is "accepted before it". -/
 theorem poolserial_is_draw_index (h : Bytes → Listener.HRes) (w0 : W) (ops : List Op) (hc : Consistent h w0)
     (i : Nat) (p : PoolSt) (hp : (exec h w0 ops).pools[i]? = some p)
     (e : Nat) (ev : Ev) (a : Int) (hev : (exec h w0 ops).events[e]? = some ev) (ha : ev.poolSerials.lookup p.name = some a) :
@@ -300,6 +308,23 @@ example :
     w.events.map (fun ev => (ev.serial, ev.poolSerials.lookup "a")) = [(some 0, some 0), (some 1, none), (some 2, some 1)] := by
   decide
 
+/-- **acceptance_decided_at_emission** (every history and every continuation of it): whether a pool has accepted an
+    event is settled by the end of the operation that emitted the event and never changes afterwards --
+    `_acceptEvent` accepts an event only inside the `notify` that emits it; every later call (a listener giving the
+    event back, `dispatch()` re-buffering it) finds the pool's name in `pool_serials` and assigns nothing.  So a pool
+    accepts events in the order in which they are emitted, and "poolserials increase with the event order"
+    (`poolserial_increasing`) is "poolserials increase in the order the pool accepted the events". -/
+theorem acceptance_decided_at_emission (h : Bytes → Listener.HRes) (w0 : W) (ops more : List Op) (hc : Consistent h w0)
+    (i e : Nat) (he : e < (exec h w0 ops).events.length) :
+    accepted (exec h w0 (ops ++ more)) i e = accepted (exec h w0 ops) i e := by
+  rw [exec_append]
+  exact (keeps_exec h _ 0 more _ (Nat.le_refl _) (consistent_forever h w0 ops hc)).2 i e he
+
+/-- an event that exists: after one notification the event table has one entry -/
+example :
+    (exec Listener.defaultHandler { pools := assignIds 0 [{ name := "a", bufSize := 1, subs := [.TICK], procs := [Listener.initial] }] }
+      [.notify .TICK_5 []]).events.length = 1 := by decide
+
 /-- **conservation** (every history, every pool, every event, at every moment): an event a pool has accepted is in
     exactly one place -- once in the pool's buffer, or held by exactly one of the pool's listeners (sent, not yet
     answered), or answered OK by one of them (once; it is gone), or discarded by the overflow rule with its
@@ -315,8 +340,8 @@ theorem conservation (h : Bytes → Listener.HRes) (w0 : W) (ops : List Op) (hc 
   have := (consistent_forever h w0 ops hc).led pi e
   cases ha : accepted (exec h w0 ops) pi e <;> simp [ha] at this ⊢ <;> omega
 
-/-- what `accepted` means: the event exists and carries a serial and this pool's poolserial (the envelope never
-    falls back on a default) -/
+/-- **accepted_has_serials**: what `accepted` means -- the event exists and carries a serial and this pool's
+    poolserial (so the envelope `_dispatchEvent` builds never falls back on a default) -/
 theorem accepted_has_serials (h : Bytes → Listener.HRes) (w0 : W) (ops : List Op) (hc : Consistent h w0) (pi e : Nat)
     (ha : accepted (exec h w0 ops) pi e = true) :
     ∃ p ev, (exec h w0 ops).pools[pi]? = some p ∧ (exec h w0 ops).events[e]? = some ev ∧
